@@ -292,7 +292,8 @@ def run(prop, tier, seed, replay=None):
         if sc.get("far"):
             if o.get("note"):
                 raise Internal("far store scenario: %s" % o["note"])
-            v.cov["store_beyond_4GiB"] = "260 mapped pieces of 16 MiB: Bytes() = allocator's count, eviction pass down to 1 GiB, Del releases everything"
+            v.cov["store_beyond_4GiB"] = ("not established on this machine" if o.get("nonconf") else
+                                          "260 mapped pieces of 16 MiB: Bytes() = allocator's count, eviction pass down to 1 GiB, Del releases everything")
             continue
         if "stress" in sc:
             stress_stats["runs"] += 1
